@@ -26,7 +26,7 @@ REQUIRED_DEEP = ["fact_regex_compiled_as_ecmascript", "ecma_anchored_accepts_iff
                  "fact_resolve_input_descriptor_values_source",
                  "values_both_mem", "match_params_sound", "match_formats_sound", "formats_match_sound", "presenter_format_shared",
                  "fact_presenter_build_submission_source", "fact_formats_match_source", "fact_formats_normalize_source", "fact_formats_constructors_source",
-                 "registration_rejects_surplus", "registration_total", "fact_registration_source", "client_registration_sound", "client_registration_total", "client_registration_accepted_end_to_end", "activate_ok_iff_some_did_registered", "activate_nocred_iff_all_dids_lack_credentials", "fact_client_registration_source",
+                 "registration_rejects_surplus", "registration_total", "fact_registration_source", "client_registration_sound", "client_registration_total", "client_registration_accepted_end_to_end", "client_registration_never_partial", "client_registration_reports_missing", "activate_ok_iff_some_did_registered", "activate_nocred_iff_all_dids_lack_credentials", "fact_client_registration_source",
                  "fact_envelope_as_is_bytes", "fact_envelope_unmarshal_source", "fact_envelope_marshal_source", "fact_try_parse_json_array_source", "fact_parse_envelope_source",
                  "envelope_unmarshal_total", "envelope_array_iff", "envelope_single_iff", "envelope_string_wrapping_transparent", "envelope_json_round_trip", "envelope_marshal_form",
                  "rematch_constraints", "rematch_stable_basic", "wallet_verifier_agree_basic_unambiguous", "disagree_witness_is_ambiguous"]
@@ -1150,7 +1150,6 @@ def run(ctx):
             if "clientreg " + got_names != cline:
                 c_bad += 1
                 creport("C12:client-registration:model-differs", f"findCredentialsAndBuildPresentation presents {got_names}, Lean model says {cline}", k)
-                continue
             pe_line = impl[k] if k < len(impl) else ""
             mm = re.match(r"match ok vcs=\[(.*?)\]", pe_line)
             # direct oracle: the client registers exactly what Match selects on its wallet, and reports missing credentials
